@@ -84,7 +84,7 @@ extern "C" void harness() {
       bool judged_by_record = e.vf_restat && rec;
       want2 = want2 || (!judged_by_record && omt[i] < m2) || (rec && ent[i].mtime < m2);
     }
-    __CPROVER_assert(d2 == want2, "post C10/C01: against a newer discovered dependency the statement is out of date exactly when an output (or, with a log, its recorded mtime) is older than it");
+    __CPROVER_assert(d2 == want2, "post C02/C10/C01: against a newer discovered dependency the statement is out of date exactly when an output (or, with a log, its recorded mtime) is older than it");
     __CPROVER_assert(bl.vf_lookups == lookups || !with_log, "post: the follow-up check reuses the log lookups of the first pass");
   }
   if (!dirty) __CPROVER_assert(0, "canary: clean statement");
